@@ -9,3 +9,9 @@ def ideal_PV(P_bar, V, n, T, R):
 def vdw_residual(P_Pa, Vm, T, a, b, R):
     """(P + a/Vm^2)(Vm - b) - R T"""
     return (P_Pa + a / Vm**2) * (Vm - b) - R * T
+
+
+def reloaded(eos):
+    """the object decoded from its own dictionary form"""
+    from pmutt.io.json import json_to_pmutt
+    return json_to_pmutt(eos.to_dict())
